@@ -100,8 +100,6 @@ _ns.cases[0]["ensures"] = ["(0 <= from_ and (to is None or (from_ <= to and to <
 from . import model_diff  # noqa: E402,F401  (wt / tree-wf: documents are finite trees)
 
 FF = "prosemirror/model/fragment.py"
-contract(FF, "Fragment.cut", {"self": "Fragment", "from_": "int", "to": "opt[int]"}, returns="Fragment", may_raise={"ValueError": "True"},
-         trusted="C02 (bounded): token-level meaning of cutting a fragment; nothing about the result is assumed here", props=P)
 
 lemma("bidx-unique", {"c": "list[Node]", "pos": "int", "idx": "int", "k": "int"},
       requires=["0 <= k", "k <= idx", "idx <= len(c)", "pre(c, idx) <= pos",
@@ -235,7 +233,7 @@ SAMET = "all_(0, len(c), lambda j: u[j].type == c[j].type)"
 lemma("run-ext", {"m": "ContentMatch", "c": "list[Node]", "u": "list[Node]", "i": "int", "e": "int"},
       requires=["len(u) == len(c)", SAMET, "0 <= i", "e <= len(c)"],
       ensures=["run_ok(m, c, i, e) == run_ok(m, u, i, e)", "run_st(m, c, i, e) == run_st(m, u, i, e)"],
-      induct="i", step=1, decreases="e - i", generalize=["m"], props=P + ["C02"])
+      induct="i", step=1, decreases="e - i", generalize=["m"], triggers=["run_ok(m, c, i, e)", "run_st(m, c, i, e)"], props=P + ["C02"])
 lemma("fbc-ext", {"nt": "NodeType", "c": "list[Node]", "u": "list[Node]", "i": "int", "e": "int"},
       requires=["len(u) == len(c)", "all_(0, len(c), lambda j: u[j].marks == c[j].marks)", "e <= len(c)"],
       ensures=["(first_bad_child(nt, c, i, e) < 0) == (first_bad_child(nt, u, i, e) < 0)"],
@@ -251,22 +249,18 @@ lemma("rp-at-boundary", {"rp": "ResolvedPos"},
                 "rp.pos >= p3c(rp.path, rp.depth)",
                 "rp.pos == p3c(rp.path, rp.depth) or (p3b(rp.path, rp.depth) < len(p3a(rp.path, rp.depth).content.content) and p3a(rp.path, rp.depth).content.content[p3b(rp.path, rp.depth)].type.is_text"
                 " and rp.pos - p3c(rp.path, rp.depth) < nsize(p3a(rp.path, rp.depth).content.content[p3b(rp.path, rp.depth)]))",
-                "rp.parent_offset == rp.pos - (0 if rp.depth == 0 else p3c(rp.path, rp.depth - 1) + 1)"],
-      ensures=["at_boundary(p3a(rp.path, rp.depth).content.content, rp.parent_offset)", "0 <= rp.parent_offset"],
+                "rp.parent_offset == rp.pos - (0 if rp.depth == 0 else p3c(rp.path, rp.depth - 1) + 1)",
+                "p3a(rp.path, rp.depth).content.size == pre(p3a(rp.path, rp.depth).content.content, len(p3a(rp.path, rp.depth).content.content))"],
+      ensures=["at_boundary(p3a(rp.path, rp.depth).content.content, rp.parent_offset)", "0 <= rp.parent_offset",
+               "rp.parent_offset <= p3a(rp.path, rp.depth).content.size"],
       calls=[("bidx-unique", ["p3a(rp.path, rp.depth).content.content", "rp.parent_offset", "p3b(rp.path, rp.depth)", "0"]),
-             ("pre-nonneg", ["p3a(rp.path, rp.depth).content.content", "p3b(rp.path, rp.depth)"])],
+             ("pre-nonneg", ["p3a(rp.path, rp.depth).content.content", "p3b(rp.path, rp.depth)"]),
+             ("pre-step", ["p3a(rp.path, rp.depth).content.content", "p3b(rp.path, rp.depth)", "len(p3a(rp.path, rp.depth).content.content)"]),
+             ("pre-step", ["p3a(rp.path, rp.depth).content.content", "p3b(rp.path, rp.depth) + 1", "len(p3a(rp.path, rp.depth).content.content)"])],
       terms=["pre(p3a(rp.path, rp.depth).content.content, p3b(rp.path, rp.depth) + 1)"], props=P + ["C02"])
 
 
 # ---- replace_outer: every node of the document replace returns is valid
-_fa = _api.CONTRACTS["Fragment.append"]
-_fa.cases[0]["ensures"] = list(_fa.cases[0]["ensures"]) + ["fvalid(self.content) and fvalid(other.content) ==> fvalid(result.content)"]
-_fa.trusted = "C02 (bounded): the result's children are children of the two fragments, the two nodes at the seam possibly merged into one text node; only the size equation and preservation of deep validity are used"
-_fa.props = list(set(_fa.props + P))
-_fc = _api.CONTRACTS["Fragment.cut"]
-_fc.cases[0]["ensures"] = ["fvalid(self.content) and at_boundary(self.content, from_) and (to is None or at_boundary(self.content, to)) ==> fvalid(result.content)"]
-_fc.trusted = ("C02 (bounded): cutting at child boundaries or inside text children yields original children and cut text nodes "
-               "(a cut strictly inside a non-text child would yield a partial node: excluded by the at_boundary premises)")
 contract(FR, "prepare_slice_for_replace", {"slice": "Slice", "along": "ResolvedPos"}, returns="dict{start:ResolvedPos,end:ResolvedPos}",
          may_raise={"ValueError": "True"},
          trusted="C02 (bounded): wraps the slice content in copies of the ancestors of the insertion point and resolves the two open ends in it", props=P)
@@ -288,6 +282,7 @@ contract(FR, "replace_outer", {"from_": "ResolvedPos", "to": "ResolvedPos", "sli
          ensures=[f"{VALID_IN} ==> dvalid(result)", "result.type == rp_node(from_, depth).type", "result.marks == rp_node(from_, depth).marks"],
          decreases="from_.depth - depth",
          calls_func={"replace_outer": [("rp-dvalid", ["from_", "depth"])],
+                     "Fragment.cut": [("rp-at-boundary", ["from_"]), ("rp-at-boundary", ["to"])],
                      "replace_two_way": [("pre-step", ["slice.content.content", "0", "len(slice.content.content)"])],
                      "close": [("rp-dvalid", ["from_", "depth"]), ("rp-at-boundary", ["from_"]), ("rp-at-boundary", ["to"]), ("rp-dvalid", ["from_", "from_.depth"]),
                                ("dvalid-kids", ["rp_node(from_, from_.depth)", "0"])]},
@@ -301,3 +296,50 @@ contract(FR, "replace_outer", {"from_": "ResolvedPos", "to": "ResolvedPos", "sli
 _api.CONTRACTS["replace"].requires = ["rp_node(from_, 0) == rp_node(to, 0)"]
 _api.CONTRACTS["replace"].cases[0]["ensures"] = [f"{VALID_IN} ==> dvalid(result)", "result.type == rp_node(from_, 0).type"]
 _api.CONTRACTS["replace"].may_raise = {"ValueError": "True", "ReplaceError": "True"}
+
+
+# ---- Fragment.append proved (replaces the trusted size-only contract of transform_steps when this sidecar is loaded)
+VALAPP = "(fvalid(self.content) and fvalid(other.content))"
+contract(FF, "Fragment.append", {"self": "Fragment", "other": "Fragment"}, returns="Fragment",
+         ensures=["result.size == self.size + other.size", f"{VALAPP} ==> fvalid(result.content)"],
+         loops={0: dict(invariant=["0 <= i", "i <= len(other.content)", "len(content) >= 1",
+                                   "pre(content, len(content)) == self.size + pre(other.content, i)",
+                                   f"{VALAPP} ==> fvalid(content)"],
+                        decreases="len(other.content) - i",
+                        entry_calls=[("pre-update", ["self.content", "len(self.content) - 1", "content[len(content) - 1]", "len(self.content)"]),
+                                     ("pre-step", ["other.content", "0", "1"]), ("pre-step", ["self.content", "len(self.content) - 1", "len(self.content)"]),
+                                     ("dvalid-text", ["content[len(content) - 1]"]),
+                                     ("fvalid-update", ["self.content", "content", "content[len(content) - 1]", "len(self.content) - 1"])],
+                        calls=[("pre-concat", ["content[0:len(content) - 1]", "[content[len(content) - 1]]", "1"]),
+                               ("pre-concat-left", ["content[0:len(content) - 1]", "[content[len(content) - 1]]", "len(content) - 1"]),
+                               ("fvalid-append", ["content[0:len(content) - 1]", "content", "content[len(content) - 1]"]),
+                               ("fvalid-at", ["other.content", "i - 1"])])},
+         calls=[("pre-step", ["self.content", "0", "len(self.content)"]), ("pre-step", ["other.content", "0", "len(other.content)"])],
+         locals={"content": "list[Node]", "last": "opt[Node]", "first": "opt[Node]"},
+         uses=["pre-nonneg"],
+         props=P + ["C02", "C16"])
+lemma("fvalid-at", {"c": "list[Node]", "k": "int"}, requires=["fvalid(c)", "0 <= k", "k < len(c)"], ensures=["dvalid(c[k])"], props=P + ["C02"])
+
+
+# ---- Fragment.cut proved for flat cuts (replaces the trusted contract above)
+CC = "self.content"
+VALCUT = f"(fvalid({CC}) and at_boundary({CC}, from_) and (old(to) is None or at_boundary({CC}, to)))"
+contract(FF, "Fragment.cut", {"self": "Fragment", "from_": "int", "to": "opt[int]"}, returns="Fragment",
+         requires=["0 <= from_", "to is None or to <= self.size"],
+         may_raise={"ValueError": "True"},
+         # cutting at child boundaries or inside text children keeps every node deeply valid (no partial non-text node arises)
+         ensures=[f"fvalid({CC}) and at_boundary({CC}, from_) and (to is None or at_boundary({CC}, to)) ==> fvalid(result.content)"],
+         loops={0: dict(invariant=["0 <= i", f"i <= len({CC})", f"pos == pre({CC}, i)", "to <= self.size", "size == pre(result, len(result))",
+                                   f"{VALCUT} ==> fvalid(result)"],
+                        decreases=f"len({CC}) - i",
+                        calls=[("bidx-unique", [CC, "from_", "i - 1", "0"]), ("bidx-unique", [CC, "to", "i - 1", "0"]),
+                               ("pre-concat", ["result[0:len(result) - 1]", "[result[len(result) - 1]]", "1"]),
+                               ("pre-concat-left", ["result[0:len(result) - 1]", "[result[len(result) - 1]]", "len(result) - 1"]),
+                               ("fvalid-append", ["result[0:len(result) - 1]", "result", "result[len(result) - 1]"]),
+                               ("dvalid-text", ["result[len(result) - 1]"]), ("fvalid-at", [CC, "i - 1"]),
+                               ("pre-step", [CC, "i", f"len({CC})"])])},
+         calls=[("pre-step", [CC, "0", f"len({CC})"])],
+         calls_func={},
+         locals={"result": "list[Node]"},
+         uses=["pre-nonneg"],
+         props=P + ["C02"])
